@@ -22,7 +22,7 @@
 import inspect
 import ast
 from functools import update_wrapper, partial
-from weakref import WeakKeyDictionary
+from weakref import WeakValueDictionary
 
 
 def get_funcsigs():
@@ -77,7 +77,10 @@ class OverrideableDataDesc(object):
                 kwargs.update(self.parameters())
                 return type(self)(func, **kwargs)
             self.custom_getter = cg
-        self.insts = WeakKeyDictionary()
+        # bound function -> wrapper, kept for as long as somebody holds the
+        # wrapper (a weak *key* would be kept alive by its own value, which
+        # references the bound function and through it the instance)
+        self.insts = WeakValueDictionary()
         super(OverrideableDataDesc, self).__init__(*args, **kwargs)
 
     def __get__(self, instance, owner):
